@@ -88,6 +88,9 @@ fn program(p: u8) -> Command<Effect, Event> {
             ctx.send_event(Event::Got(v));
             ctx.send_event(Event::Got(v.wrapping_add(1)));
         }),
+        // a burst of 40 events and 10 notifications from one task of a command nested in all / and / then
+        8 => Command::all([burst(), Command::done()]),
+        9 => Command::done().then(burst()).and(Command::done()),
         // abort first, then outputs that were queued before the abort must still surface
         _ => {
             let mut cmd: Command<Effect, Event> = Command::done();
@@ -103,6 +106,18 @@ fn program(p: u8) -> Command<Effect, Event> {
             cmd
         }
     }
+}
+
+/// 40 events and 10 notifications in one poll
+fn burst() -> Command<Effect, Event> {
+    Command::new(|ctx| async move {
+        for i in 0..40u8 {
+            ctx.send_event(Event::Got(50 + i));
+            if i % 4 == 0 {
+                ctx.notify_shell(Op(20 + i / 4));
+            }
+        }
+    })
 }
 
 impl crux_core::App for App {
@@ -146,7 +161,8 @@ fn fmt_step(effects: &[u8], events: &[u8], ordered: bool) -> String {
 
 /// resolve every pending request with `answer`, collecting new requests; repeat for `rounds` steps
 fn run_direct(p: u8) -> String {
-    let mut cmd = program(p);
+    // the nested programs are compared with their un-nested body
+    let mut cmd = if p == 8 || p == 9 { burst() } else { program(p) };
     let mut steps = Vec::new();
     let mut pending: Vec<Request<Op>> = Vec::new();
     let mut answer = 5u8;
@@ -217,7 +233,7 @@ fn expected_p6() -> String {
 
 fn main() {
     if std::env::var("HOST_REPLAY_VERBOSE").is_err() { std::panic::set_hook(Box::new(|_| {})); }
-    for p in 0u8..8 {
+    for p in 0u8..10 {
         let d = if p == 6 { expected_p6() } else { std::panic::catch_unwind(|| run_direct(p)).unwrap_or_else(|_| "PANIC".into()) };
         let c = std::panic::catch_unwind(|| run_core(p)).unwrap_or_else(|_| "PANIC".into());
         println!("P{p} direct {d}");
